@@ -1414,9 +1414,15 @@ func conv(t_dst, t_src types.Type, x value) value {
 			// simulate the memory layout of a real
 			// compiled implementation.
 			//
-			// To at least preserve type-safety, we'll
-			// just return the zero value of the
-			// destination type.
+			// gsx: a *T that went through unsafe.Pointer and comes back as *T
+			// (sync/atomic.Pointer[T], atomic.Load/StorePointer) is the same cell;
+			// reinterpretation as another pointee type is not supported and would
+			// show up as a dynamic type error of the interpreter, not silently.
+			if _, isPtr := ut_dst.(*types.Pointer); isPtr {
+				if up, ok := x.(unsafe.Pointer); ok {
+					return (*value)(up)
+				}
+			}
 			return zero(t_dst)
 		}
 
